@@ -200,6 +200,7 @@ func (u *universe) runSchedule(sc *scenario, c *chooser) execResult {
 						}
 						vk.Fatalf("MakeBlockFromMempool: %v", err)
 					}
+					unmanaged(func() { in.c.CheckBlock(b) }) // validation on a state copy: one atomic step (cached for Commit)
 					if err := in.c.Commit(b, parts); err != nil {
 						viol("offered-block-does-not-execute:commit@concurrent", fmt.Sprintf("committing the block built from a concurrent Reap fails: %v; block: %s", err, in.names(b.Data.Txs)))
 						return
@@ -256,6 +257,20 @@ func (u *universe) runSchedule(sc *scenario, c *chooser) execResult {
 	}
 	res.Final = in.stateString()
 	return res
+}
+
+// unmanaged runs f on a goroutine the scheduler does not own while the calling managed thread keeps the baton: f is
+// one atomic step of the schedule (no scheduling points inside, goroutines it starts are plain goroutines). Only for
+// code that takes no lock a parked thread can hold.
+func unmanaged(f func()) {
+	done := make(chan interface{}, 1)
+	go func() {
+		defer func() { done <- recover() }()
+		f()
+	}()
+	if e := <-done; e != nil {
+		panic(e)
+	}
 }
 
 // ---- exploration of the schedule tree ------------------------------------------------------------------------------
